@@ -1382,6 +1382,8 @@ if __name__ == "__main__":
     src2v3_keys.main()
     import src2v3_enc  # work package encT: coq/gen/Src3e.v, reading side of the encryption layer (fails closed per item)
     src2v3_enc.main()
+    import src2v3_cmds  # work package cmdsT: coq/gen/Src3m.v (mlar commands other than extract, keygen, keyderive; fails closed per item)
+    src2v3_cmds.main()
     import src2v3_comp  # work package compT: coq/gen/Src3c.v (compress.rs, fails closed per item)
     src2v3_comp.main()
     import src2v3_crypto  # work package cryptoT: coq/gen/Src3g.v (aesgcm.rs, ecc.rs; fails closed per item)
